@@ -22,6 +22,8 @@ type Scen struct {
 	Bound int
 	// Preemption selects preemption bounding instead of delay bounding.
 	Preemption bool
+	// Horizon overrides the default step horizon (batched input scenarios run long)
+	Horizon int
 	Body       func()
 	// Check returns "" or a violation message; Key (optional) is a stable identity of the failing
 	// history used to match known findings.
@@ -139,7 +141,7 @@ func runScens(prop string, scens []Scen) *ShardResult {
 			key     string
 		}
 		var pending []pend
-		ex := &vsched.Explorer{Bound: sc.Bound, Deadline: deadline, Preemption: sc.Preemption}
+		ex := &vsched.Explorer{Bound: sc.Bound, Deadline: deadline, Preemption: sc.Preemption, Cfg: vsched.Config{Horizon: sc.Horizon}}
 		ex.Check = func(x *vsched.Exec) string {
 			if x.Panic != "" && strings.Contains(x.Panic, "INSTRUMENTATION-UNSUPPORTED") {
 				res.Infra = x.Panic
@@ -155,7 +157,7 @@ func runScens(prop string, scens []Scen) *ShardResult {
 			if first && (sc.Bound > 0 || i%16 == 0) {
 				first = false
 				// determinism self-check: the default execution replayed must give the same observation
-				y := vsched.Run(append([]int(nil), x.Choices...), vsched.Config{}, sc.Body)
+				y := vsched.Run(append([]int(nil), x.Choices...), vsched.Config{Horizon: sc.Horizon}, sc.Body)
 				if sc.Obs(y) != o {
 					res.Infra = fmt.Sprintf("NONDETERMINISM scenario %d: %q vs %q", i, o, sc.Obs(y))
 					return "infra"
@@ -191,7 +193,7 @@ func runScens(prop string, scens []Scen) *ShardResult {
 			fails, same := 0, true
 			var obs0 string
 			for k := 0; k < 5; k++ {
-				y := vsched.Run(f.choices, vsched.Config{Trace: k == 0}, sc.Body)
+				y := vsched.Run(f.choices, vsched.Config{Trace: k == 0 && sc.Horizon == 0, Horizon: sc.Horizon}, sc.Body)
 				m, mk := sc.Check(y)
 				o := sc.Obs(y) + "|" + mk
 				if m != "" {
